@@ -80,11 +80,16 @@ func VerifRun_C08e() {
 	l := c08eServer(root, files)
 	ctx := context.Background()
 	unsaved := []bool{false, false}
+	gone := []bool{false, false}
 	for k := 0; k < verifParam("STEPS"); k++ {
 		fi := verifConcretize(verifRange("file", 0, 1))
 		f := files[fi]
+		op := verifConcretize(verifRange("op", 0, 4))
+		if gone[fi] && op != 4 {
+			verifAssume(false) // nothing else happens to a file that does not exist
+		}
 		uri := lsp.DocumentURI("file://" + f)
-		switch verifConcretize(verifRange("op", 0, 3)) {
+		switch op {
 		case 0: // the user types: full-text didChange to another version (may be syntactically broken)
 			var txt string
 			if fi == 0 {
@@ -118,6 +123,18 @@ func VerifRun_C08e() {
 			cur[fi] = txt
 			verifVFSPut(f, []byte(txt))
 			_ = l.WorkspaceChangeWatchedFiles(ctx, lsp.DidChangeWatchedFilesParams{Changes: []lsp.FileEvent{{URI: uri, Type: lsp.Changed}}})
+		case 4: // the file is deleted outside the editor / comes back (e.g. a branch switch), reported by the watcher
+			if unsaved[fi] {
+				verifAssume(false)
+			}
+			if gone[fi] {
+				verifVFSPut(f, []byte(cur[fi]))
+				_ = l.WorkspaceChangeWatchedFiles(ctx, lsp.DidChangeWatchedFilesParams{Changes: []lsp.FileEvent{{URI: uri, Type: lsp.Created}}})
+			} else {
+				verifVFSDel(f)
+				_ = l.WorkspaceChangeWatchedFiles(ctx, lsp.DidChangeWatchedFilesParams{Changes: []lsp.FileEvent{{URI: uri, Type: lsp.Deleted}}})
+			}
+			gone[fi] = !gone[fi]
 		case 3: // the user closes the (saved) document and opens it again
 			if unsaved[fi] {
 				verifAssume(false)
@@ -136,7 +153,13 @@ func VerifRun_C08e() {
 	}
 	got := c08eViewOf(files)
 	c08view = map[string]string{}
-	_ = c08eServer(root, files)
+	var existing []string
+	for fi, f := range files {
+		if !gone[fi] {
+			existing = append(existing, f)
+		}
+	}
+	_ = c08eServer(root, existing)
 	want := c08eViewOf(files)
 	verifObserve("view", got)
 	verifReach("compared")
